@@ -122,9 +122,12 @@ class World:
         """ranges of every value stored to the field anywhere in the crate"""
         fb = self.ctx.fb
         out = []
+        absorbed = fb.absorbed() if hasattr(fb, "absorbed") else set()
         for b in fb.bodies.values():
             if b.derived():
                 continue
+            if b.path in absorbed:
+                continue        # a helper spliced into every caller: its writes are seen there, with the callers' values
             touches = False
             for bi in b.normal_blocks():
                 for s in b.blocks[bi]["stmts"]:
@@ -480,6 +483,24 @@ class Prover:
             cr = self.closure_item_range(t)
             if cr is not None:
                 return cr
+            b0 = strip(t[1])
+            if b0[0] == "phi" and isinstance(t[2], int) and ("fld", b0[2], b0[3], t[2]) not in self._phi_stack:
+                cr = self.counted(t, bb, d)
+                if cr is not None:
+                    return cr
+            if b0[0] == "phi" and b0[1] == self.se.fn and (b0[2], b0[3]) in self.se.phi_inputs and isinstance(t[2], int) and ("fld", b0[2], b0[3], t[2]) not in self._phi_stack:
+                # component of a value that is a tuple / struct built on every incoming path
+                # (`let (bytes, length) = if large { (a, 5) } else { (b, 4) }`): join of the components
+                ins = [strip(v) for v in self.se.phi_inputs[(b0[2], b0[3])].values() if strip(v)[0] != "uninit"]
+                if ins and all(v[0] == "agg" and v[1] in ("tuple", "adt") and t[2] < len(v[4]) for v in ins):
+                    self._phi_stack.add(("fld", b0[2], b0[3], t[2]))
+                    try:
+                        r = None
+                        for v in ins:
+                            r = join(r, self._rng(util.numnorm(v[4][t[2]]), None, d + 1))
+                        return r
+                    finally:
+                        self._phi_stack.discard(("fld", b0[2], b0[3], t[2]))
             ri = self.range_item(t)
             if ri is not None:
                 ra, rb = self._rng(ri[0], bb, d), self._rng(ri[1], bb, d)
@@ -610,8 +631,72 @@ class Prover:
             return TOP
         return TOP
 
+    def counted(self, c, bb, d=0):
+        """The counter lemma.  c is a value carried round a `for` loop - the phi of a local at the
+        loop head, or a field of the phi of a struct - that starts at a constant c0 and is
+        increased by exactly 1 on every way round.  The loop's iterator yields at most M items,
+        so c is in [c0, c0 + M - 1] inside the body (an item was obtained: fewer than M were
+        consumed before) and in [c0, c0 + M] anywhere else.  None when c is not such a counter."""
+        c = strip(c)
+        ph, fld = (c, None)
+        if c[0] == "field" and isinstance(c[2], int) and strip(c[1])[0] == "phi":
+            ph, fld = strip(c[1]), c[2]
+        if ph[0] != "phi" or ph[1] != self.se.fn or (ph[2], ph[3]) not in self.se.phi_inputs or ph[4] != ():
+            return None
+        if not hasattr(self, "_loops_cache"):
+            self._loops_cache = {lp["next_bb"]: lp for lp in util.for_loops(self.ctx, self.se)}
+        lp = self._loops_cache.get(ph[2])
+        if lp is None or lp["init_call"] is None:
+            return None
+        import cfg as _cfg
+        loop = set()
+        for e in _cfg.back_edges(self.body):
+            if e[1] == ph[2]:
+                loop |= _cfg.natural_loop(self.body, e)
+        c0 = None
+        for pred, v in self.se.phi_inputs[(ph[2], ph[3])].items():
+            v = strip(v)
+            if fld is not None:
+                # component fld of the struct value flowing in
+                w = v
+                comp = None
+                while w[0] == "upd" and w[2][0] == "f":
+                    if w[2][1] == fld and comp is None:
+                        comp = w[3]
+                    w = strip(w[1])
+                if comp is None:
+                    if w == ph:
+                        comp = c
+                    elif w[0] == "agg" and fld < len(w[4]):
+                        comp = w[4][fld]
+                    else:
+                        return None
+                v = strip(comp)
+            n = util.numnorm(v)
+            if n[0] == "field" and n[2] == 0 and n[1][0] == "binop" and n[1][1] == "AddWithOverflow":
+                n = ("binop", "Add", n[1][2], n[1][3])
+            if pred in loop:
+                if not (n[0] == "binop" and n[1] in ("Add", "AddUnchecked") and util.numnorm(n[2]) == util.numnorm(c) and n[3][:2] == ("int", 1)):
+                    return None
+            else:
+                if n[0] != "int" or (c0 is not None and c0 != n[1]):
+                    return None
+                c0 = n[1]
+        if c0 is None:
+            return None
+        # (what is known where the loop is entered - a length gate - bounds the item count)
+        m = self.iter_len(lp["init_call"][2][0], ph[2], d + 1)
+        if m[1] == INF:
+            return None
+        if bb is not None and lp["body_bb"] is not None and _cfg.dominates(_cfg.dominators(self.body), lp["body_bb"], bb):
+            return (c0, c0 + max(m[1] - 1, 0))
+        return (c0, c0 + m[1])
+
     def _phi(self, t, bb, d):
         key = (t[2], t[3])
+        cr = self.counted(t, bb, d) if key not in self._phi_stack else None
+        if cr is not None:
+            return cr
         if t[1] != self.se.fn or key not in self.se.phi_inputs or t[4] != ():
             # phi of an inlined callee or unknown: type range of the root when it is a local
             return TOP
